@@ -62,7 +62,7 @@ def run(fx, chk, tier):
         body = body_of(fn)
         if body is None or it is None:
             continue
-        sroots = c07.size_roots(fx, fid)
+        sroots = c07.size_roots_ip(fx, eng, fid)
         ls = None
         seen = {}
         for b, t in body.calls():
@@ -98,8 +98,40 @@ def run(fx, chk, tier):
                 elif c07.size_derived_in(prov, sroots):
                     chk.ok("R-SINK", key, "B-DERIVED: computed from the box size / positions only (%s)" % sorted(prov), site)
                 else:
-                    chk.bad("R-SINK", key, "allocation size %s in [%s, %s] comes from the input (%s) with no bound derived from the box or file size" % (
-                        body.op_str(arg), lo, hi, sorted(prov)), site, {"prov": sorted(prov), "ub": sorted(ub) if ub else None})
+                    sinkname = decl.split("::")[-1]
+                    what = "allocation size %s in [%s, %s] comes from the input (%s) with no bound derived from the box or file size"
+                    # a size that is just a parameter of a private helper: the unbounded value is the caller's; report it there
+                    # (the key then survives moving the allocation into / out of a helper)
+                    params = {r for r in prov if r.startswith("P") and r[1:].isdigit()}
+                    blamed = []
+                    if params and all(r in params or r == "C" for r in prov) and len(params) == 1:
+                        pi = int(list(params)[0][1:]) - 1
+                        for caller in sorted(eng.clo):
+                            itc = eng.res.interps.get(caller)
+                            if itc is None:
+                                continue
+                            for cb, ct in itc.body.calls():
+                                if callee_path(ct["callee"]) != fid or pi >= len(ct["args"]):
+                                    continue
+                                cst = itc.out_states.get(cb)
+                                if cst is None:
+                                    continue
+                                csid, clo_, chi_, cprov = itc.read_op(cst, ct["args"][pi], (cb, "t"))
+                                cro = c07.size_roots_ip(fx, eng, caller)
+                                cub = c07.derived_ub(itc, cst, csid) if csid is not None else None
+                                bounded = (chi_ is not None and chi_ <= NARROW) or (cprov and all(x in ("C", "LEN") or x.startswith("S:") for x in cprov)) \
+                                    or (cub and c07.size_derived_in(cub, cro)) or c07.size_derived_in(cprov, cro)
+                                if not bounded:
+                                    blamed.append((caller, itc.body, ct, clo_, chi_, cprov))
+                    if blamed:
+                        for caller, cbody, ct, clo_, chi_, cprov in blamed:
+                            k2 = "%s|%s(%s)" % (fn_short(caller), sinkname, cbody.op_str(ct["args"][pi]))
+                            ck = "%s|%s(%s)" % (fn_short(caller), sinkname, cbody.canon_op(ct["args"][pi]))
+                            chk.bad("R-SINK", k2, (what % (cbody.op_str(ct["args"][pi]), clo_, chi_, sorted(cprov))) + " (allocated in %s)" % fn_short(fid), site_of(fx.fns[caller], ct.get("line")),
+                                    {"prov": sorted(cprov), "ckey": ck})
+                    else:
+                        chk.bad("R-SINK", key, what % (body.op_str(arg), lo, hi, sorted(prov)), site,
+                                {"prov": sorted(prov), "ub": sorted(ub) if ub else None, "ckey": "%s|%s(%s)" % (fn_short(fid), sinkname, body.canon_op(arg))})
             # ---------------- R-PUSH
             elif decl in GROW:
                 ngrow += 1
